@@ -11,9 +11,13 @@
                ones (count None / <= 0 / >= their number) nor exactly the requested count
           27 = C17_kept_densest: the observed chunks_kept are not the densest regular selection that
                fits in n_chunks_kept (the stride is not the least one keeping <= n_chunks_kept chunks)
-          3  = input outside the stated regime (harness bug) *)
+          3  = input outside the stated regime (harness bug)
+   InSeq (round 2): 2-4 calls made one after the other on ONE SpikeSelector object; call number j is
+   judged by the clauses 22-26 of a single call with ITS arguments, and (code 1, when no cluster is
+   sub-sampled) against entry j of Calls.selector_calls, which C17_calls_independent identifies with
+   the call made alone on a fresh selector. *)
 From Coq Require Import ZArith List Lia Bool.
-From PV Require Export Base.PySlice Base.NpSearch C17.Model C17.Spec.
+From PV Require Export Base.PySlice Base.NpSearch C17.Model C17.Spec C17.Calls.
 Import ListNotations.
 Open Scope Z_scope.
 
@@ -23,12 +27,15 @@ Inductive input :=
            (sub_chunks : bool) (sub : option (list Z))
 (* TemplateModel.save_spikes_subset_waveforms on a loaded dataset: spike_samples, spike_templates,
    traces.chunk_bounds as loaded, max_n_spikes_per_template *)
-| InRoute (samples templates grid : list Z) (nst : Z).
+| InRoute (samples templates grid : list Z) (nst : Z)
+(* a sequence of calls on one selector object *)
+| InSeq (times clusters grid : list Z) (k : Z) (calls : list call).
 
 Inductive observed :=
 | ObsKept (kept : list Z)
 | ObsSelect (kept : list Z) (results : list (list Z))   (* one result per NumPy seed *)
 | ObsRoute (results : list (list Z))                     (* saved spike ids, one per NumPy seed *)
+| ObsSeq (kept : list Z) (results : list (list (list Z)))  (* per call: one result per NumPy seed *)
 | ObsCrash.
 
 Record case := { cid : Z; cin : input; cobs : observed }.
@@ -38,8 +45,36 @@ Definition flag (code : Z) (ok : bool) : list Z := if ok then [] else [code].
 Definition opt_eqb (m : option (list Z)) (o : list Z) : bool :=
   match m with Some x => zlist_eqb x o | None => false end.
 
+Fixpoint nodupZ (l : list Z) : list Z :=
+  match l with [] => [] | x :: r => if memZ x r then nodupZ r else x :: nodupZ r end.
+
 Definition grid_ok (grid : list Z) (k : Z) : bool :=
   (1 <=? k) && (1 <=? zlen grid) && sortedZb grid.
+
+(* the codes of one call of a sequence (the clauses of InSelect, with the call's own arguments) *)
+Definition call_codes (times clusters kept : list Z) (c : call) (model : option (list Z))
+    (rs : list (list Z)) : list Z :=
+  let ivs := match unflat kept with Some l => l | None => [] end in
+  let n := c_n c in let req := c_req c in let sc := c_sc c in let sub := c_sub c in
+  let determined :=
+    forallb (fun cl => negb (subsamples n (zlen (elig times clusters ivs sc sub cl)))) req in
+  let all (f : list Z -> bool) := forallb f rs in
+  flag 1 (negb determined || all (opt_eqb model)) ++
+  flag 22 (all (cl22_sorted)) ++
+  flag 23 (all (cl23_cluster clusters req)) ++
+  flag 24 (all (cl24_chunk times ivs sc)) ++
+  flag 25 (all (cl25_subset sub)) ++
+  flag 26 (all (cl26_count times clusters ivs sc sub n req)).
+
+Fixpoint seq_codes (times clusters kept : list Z) (calls : list call)
+    (models : list (option (list Z))) (rss : list (list (list Z))) : list Z :=
+  match calls, models, rss with
+  | [], [], [] => []
+  | c :: cr, m :: mr, rs :: rr =>
+      (match rs with [] => [1; 26] | _ => call_codes times clusters kept c m rs end) ++
+      seq_codes times clusters kept cr mr rr
+  | _, _, _ => [1; 26]
+  end.
 
 Definition check (c : case) : list Z :=
   match cin c, cobs c with
@@ -88,6 +123,18 @@ Definition check (c : case) : list Z :=
           flag 23 (all (cl23_cluster templates req)) ++
           flag 24 (all (cl24_chunk samples ivs true)) ++
           flag 26 (all (cl26_count samples templates ivs true None n req))
+      | _ => [1; 26]
+      end
+  | InSeq times clusters grid k calls, o =>
+      if negb (grid_ok grid k && (zlen times =? zlen clusters) && (2 <=? zlen calls)) then [3] else
+      match o with
+      | ObsSeq kept rss =>
+          let models := match selector_calls (fun _ => choose0) times clusters grid k calls with
+                        | Some l => l | None => [] end in
+          nodupZ (flag 1 (opt_eqb (chunks_kept grid k) kept) ++
+                  flag 21 (kept_spec_b grid k kept) ++
+                  flag 27 (kept_dense_b grid k kept) ++
+                  seq_codes times clusters kept calls models rss)
       | _ => [1; 26]
       end
   end.
